@@ -94,10 +94,28 @@ def check_one(pred, ref, cfg):
     return bad, True
 
 
+def library_scores(pred, ref, cfg):
+    """the candidate scores as the LIBRARY's metric function computes them (so that a threshold 'exactly at a score' is bitwise that score)"""
+    from panoptica.metrics import Metric
+    pred, ref = np.asarray(pred), np.asarray(ref)
+    P, Rr = SP.instances_of(pred, cfg["input_type"], cfg.get("backend")), SP.instances_of(ref, cfg["input_type"], cfg.get("backend"))
+    out = set()
+    for r, X in Rr.items():
+        for p, Y in P.items():
+            if X & Y:
+                mr, mp = np.zeros(ref.shape, bool), np.zeros(pred.shape, bool)
+                mr[tuple(np.array(sorted(X)).T)] = True
+                mp[tuple(np.array(sorted(Y)).T)] = True
+                try:
+                    out.add(float(Metric[cfg["matching_metric"]](mr, mp)))
+                except Exception:
+                    pass
+    return sorted(out)
+
+
 def thresholds_for(pred, ref, cfg, rng):
     """interesting thresholds: exact candidate scores, midpoints, extremes"""
-    P, Rr = SP.instances_of(pred, cfg["input_type"], cfg.get("backend")), SP.instances_of(ref, cfg["input_type"], cfg.get("backend"))
-    sc = sorted({c[0] for c in SP.candidates(P, Rr, cfg["matching_metric"], np.asarray(pred).ndim)})
+    sc = library_scores(pred, ref, cfg)
     out = list(sc)
     out += [(a + b) / 2 for a, b in zip(sc, sc[1:])]
     out += [0.5, 0.0, 1.0] if cfg["matching_metric"] != "ASSD" else [0.5, 1.0, 2.5]
